@@ -132,11 +132,18 @@ def fact_rotate_on(ctx, needle, label, notes):
     if not rs or not ss:
         notes.append(f"{label}: WalHandle::rotate / set_wal_cutoff appear without each other")
         return None
+    startup = False
     for s in ss:
         seg_ok = any(len(qe.args) > 3 and sym.describe(qe.args[3]) == sym.describe(s.args[1]) for qe in qs) if len(s.args) > 2 else False
         val = sym.describe(s.args[2]) if len(s.args) > 2 else ""
         if not seg_ok:
-            notes.append(f"{label}: the boundary is recorded for a segment id other than the queued one")
+            key = sym.describe(s.args[1]) if len(s.args) > 1 else ""
+            if re.search(r"(^|[:.])ctx(~\d+)?\.segment_id$", key):
+                # filed under the id the shard context was created with (never advanced): only the flush of the
+                # first segment of a process lifetime finds its boundary
+                startup = True
+                continue
+            notes.append(f"{label}: the boundary is recorded for a segment id other than the queued one ({key[:60]})")
             return None
         if not re.match(r"poll\(WalHandle::rotate#\d+\)(@L\d+)?:Ready\.0:Some\.0$", val):
             notes.append(f"{label}: the recorded boundary is not the id reported by WalHandle::rotate ({val[:60]})")
@@ -154,7 +161,7 @@ def fact_rotate_on(ctx, needle, label, notes):
         if res != z3.unsat:
             notes.append(f"{label}: queue_for_flush reachable without a recorded WAL boundary although the WAL answered")
             return None
-    return True
+    return "startup-key" if startup else True
 
 
 def fact_thread(ctx, notes):
@@ -303,6 +310,7 @@ class Model:
             self.pre.append(z3.And(o >= 0, o <= 3))
         I = z3.IntVal
         self.L, self.w, self.m, self.S, self.Smax = I(0), I(0), I(0), I(0), I(0)
+        self.S0 = I(0)          # the segment id the shard context of this process lifetime was created with
         self.cur_alive = z3.BoolVal(True)
         self.ev = []            # per event: dict(exists, log, alive (its WAL copy survives), inmem, flushed)
         self.bad = []           # (condition, kind, step)
@@ -326,11 +334,14 @@ class Model:
         seg = self.S
         self.S = self.ite(c, self.S + 1, self.S)
         boundary = None
+        found = z3.BoolVal(True)        # does the flush of `seg` find the boundary that was recorded?
         if rotates:
             req = self.f["thread"]["request"]
             rc = z3.And(c, self.w > 0) if req == "if_nonempty" else c
             self.rotate(rc)
             boundary = self.L
+            if rotates == "startup-key":
+                found = seg == self.S0
         nonempty = z3.And(c, self.m > 0)
         if self.lag and prune:
             k = len(self.pending)
@@ -338,7 +349,7 @@ class Model:
                 e["batch"] = self.ite(z3.And(nonempty, e["inmem"]), z3.IntVal(k), e.get("batch", z3.IntVal(-1)))
                 e["inmem"] = z3.And(e["inmem"], z3.Not(c))
             self.m = self.ite(c, z3.IntVal(0), self.m)
-            self.pending.append({"active": nonempty, "seg": seg, "boundary": boundary})
+            self.pending.append({"active": nonempty, "seg": seg, "boundary": boundary, "found": found})
             return
         for e in self.ev:
             e["flushed"] = z3.Or(e["flushed"], z3.And(nonempty, e["inmem"]))
@@ -352,7 +363,7 @@ class Model:
         if cut["mode"] == "seg":
             self.cleanup(nonempty, seg + cut["c"])
         elif cut["mode"] == "wal" and boundary is not None:
-            self.cleanup(nonempty, boundary + cut["c"])
+            self.cleanup(z3.And(nonempty, found), boundary + cut["c"])
         # mode wal without a recorded boundary, or mode none: nothing is pruned
 
     def complete(self, k, cond):
@@ -366,7 +377,7 @@ class Model:
         if cut["mode"] == "seg":
             self.cleanup(c, p["seg"] + cut["c"])
         elif cut["mode"] == "wal" and p["boundary"] is not None:
-            self.cleanup(c, p["boundary"] + cut["c"])
+            self.cleanup(z3.And(c, p.get("found", z3.BoolVal(True))), p["boundary"] + cut["c"])
 
     def progress(self, t, everything=None):
         """the flush worker gets through some (or, at a graceful shutdown, all) of the queued flushes, in order"""
@@ -396,6 +407,7 @@ class Model:
         self.w = self.ite(c, neww, self.w)
         self.cur_alive = z3.Or(c, self.cur_alive)
         self.S = self.ite(c, self.Smax, self.S)
+        self.S0 = self.ite(c, self.Smax, self.S0)
         rec = z3.IntVal(0)
         for e in self.ev:
             back = z3.And(e["exists"], e["alive"])
